@@ -337,6 +337,10 @@ func additive(symbols []pr.IntNamedString, value int) (string, bool) {
 	}
 	var parts []string
 	for _, vs := range symbols {
+		if vs.Int == 0 || vs.Int > value {
+			// "if the weight is 0 or greater than the value, continue to the next tuple"
+			continue
+		}
 		repetitions := value / vs.Int
 		parts = append(parts, strings.Repeat(symbol(vs.NamedString), repetitions))
 		value -= vs.Int * repetitions
